@@ -58,6 +58,7 @@ void sym_inputs(void)
 #ifdef REPLAY
 #include "replay_inputs.inc"
 #else
+  SYM_FEED();
   SYM_ARR(cmd); SYM_ARR(arg); SYM(have_relay); SYM_ARR(relay); SYM(have_rh); SYM_ARR(rh_tab);
   SYM(have_bmf); SYM_ARR(bmf_tab); SYM_ARR(open_fails); SYM_ARR(qstatus);
 #endif
